@@ -182,7 +182,8 @@ def crossingsOf (g : GGrid) (eps : Rat) (va vb : Pt) : List Cross :=
         let ys := irange (min jb (jb + j)) (max (jb + j) jb + 1)
         let cand := xs.flatMap (fun x => ys.filterMap (fun y =>
           diagPick eps i j (vCross g va vb (decide (0 < i)) x y) (hCross g va vb (decide (0 < j)) x y)))
-        sortByS (cand.filter (fun c => decide (0 ≤ c.s ∧ c.s ≤ 1)))
+        -- `intersec_data.iter_mut().zip(i_ids)`: at most `dist` of them receive an identifier
+        (sortByS (cand.filter (fun c => decide (0 ≤ c.s ∧ c.s ≤ 1)))).take dist
 
 /-- the point of the segment at parameter `s` -/
 def segPoint (va vb : Pt) (s : Rat) : Pt := (va.1 + s * (vb.1 - va.1), va.2 + s * (vb.2 - va.2))
